@@ -241,4 +241,19 @@ PROPS = {
             "a runaway recursion is recognised by the execution error; a worker that dies instead (stack overflow) is detected through the write-ahead journal",
         ],
     },
+    "C08": {
+        "quick": [
+            {"test": "TestC08Path", "checks": 60000, "shards": 4},
+            {"test": "TestC08Shadowing", "kind": "plain"},
+        ],
+        "thorough": [
+            {"test": "TestC08Path", "checks": 3200000, "shards": 16},
+            {"test": "TestC08Shadowing", "kind": "plain"},
+        ],
+        "assumptions": [
+            "not asserted (neither the statement nor a fixture fixes it; such paths are discarded and counted): indexing a string, .N on a map, string subscripts on sequences, pointer-receiver methods on a nil pointer, results of *Value-returning methods",
+            "a subscript ends a name in pongo2's grammar (a[k].b is a syntax error), so subscripts are generated as the last step only",
+            "a call written after a missing key / unknown name yields the empty value (nothing to call); a call of an existing non-function value is an error",
+        ],
+    },
 }
